@@ -273,7 +273,10 @@ def check(case: dict[str, Any], rec: Any) -> None:
     post = range(0)
     if fault in ("close_primary", "raise_primary"):
         # (the fallback sample read at the failure can also be up to lag+1 rounds *older* than the round)
-        post = range(fat - max(case["lag"], 0) - 1, fat + case["fallback_skip"] + max(case["lag"], 0) + 4)
+        lo = fat - max(case["lag"], 0) - 1
+        r = next((x for x in recv if x >= lo), None)  # first fallback index delivered around/after the failure
+        hi = max(fat + case["fallback_skip"] + max(case["lag"], 0), fat if r is None else r) + 4
+        post = range(lo, hi)
     idx = [k for k, _ in outs]
     strict_idx = [k for k in idx if k not in post]
     if strict_idx != sorted(set(strict_idx)):
